@@ -3,8 +3,6 @@ package main
 import (
 	"bytes"
 	"fmt"
-	"math/big"
-	"math/rand"
 
 	"github.com/oasisprotocol/ed25519"
 	"github.com/oasisprotocol/ed25519/extra/x25519"
@@ -26,7 +24,9 @@ func init() {
 		}
 		return judgeX(rec, sc, pt, str(c, "path"))
 	}
-	replayers["convpub"] = func(rec *ev.Rec, c map[string]interface{}) bool { return judgeConvPub(rec, hexf(c, "key"), str(c, "class")) }
+	replayers["convpub"] = func(rec *ev.Rec, c map[string]interface{}) bool {
+		return judgeConvPub(rec, hexf(c, "key"), str(c, "class"))
+	}
 	replayers["convpriv"] = func(rec *ev.Rec, c map[string]interface{}) bool { return judgeConvPriv(rec, hexf(c, "seed")) }
 }
 
@@ -122,85 +122,6 @@ func judgeX(rec *ev.Rec, scalar, point []byte, path string) bool {
 	return false
 }
 
-// hostile scalars for the signed radix-16 recoding of 255-bit clamped values
-func xScalars(rng *rand.Rand) [][]byte {
-	var out [][]byte
-	for _, f := range []byte{0x00, 0xff, 0x77, 0x88, 0x99, 0x78, 0x87, 0x80, 0x08, 0xf0, 0x0f, 0x7f, 0xf7, 0x8f, 0xf8} {
-		b := bytes.Repeat([]byte{f}, 32)
-		out = append(out, b)
-	}
-	// runs of nibbles 7/8/9/f of every length at every nibble offset (carry chains)
-	for _, nib := range []byte{7, 8, 9, 0xf} {
-		for i := 0; i < 6; i++ {
-			off := rng.Intn(64)
-			l := 1 + rng.Intn(64-off)
-			b := gen.RandBytes(rng, 32)
-			if rng.Intn(2) == 0 {
-				b = make([]byte, 32)
-			}
-			for k := off; k < off+l; k++ {
-				if k%2 == 0 {
-					b[k/2] = b[k/2]&0xf0 | nib
-				} else {
-					b[k/2] = b[k/2]&0x0f | nib<<4
-				}
-			}
-			out = append(out, b)
-		}
-	}
-	// single-bit scalars
-	for i := 0; i < 8; i++ {
-		b := make([]byte, 32)
-		bit := rng.Intn(256)
-		b[bit/8] = 1 << uint(bit%8)
-		out = append(out, b)
-	}
-	// around multiples of L and powers of two
-	for _, base := range []*big.Int{ref.L, new(big.Int).Lsh(ref.L, 1), new(big.Int).Lsh(ref.L, 2), new(big.Int).Lsh(ref.L, 3), gen.P2_252, new(big.Int).Lsh(gen.One, 254), gen.P2_255, gen.P2_256} {
-		for d := int64(-9); d <= 9; d += 3 {
-			x := new(big.Int).Add(base, big.NewInt(d))
-			if x.Sign() >= 0 && x.Cmp(gen.P2_256) < 0 {
-				out = append(out, ref.LEBytes(x, 32))
-			}
-		}
-	}
-	for i := 0; i < 8; i++ {
-		out = append(out, gen.RandBytes(rng, 32))
-	}
-	return out
-}
-
-func xPoints(rng *rand.Rand) ([][]byte, []string) {
-	var pts [][]byte
-	var cls []string
-	add := func(b []byte, c string) { pts = append(pts, b); cls = append(cls, c) }
-	// low order u-coordinates derived from the torsion points (u = (1+y)/(1-y)), plus 0, 1, p-1 and non-canonical twins
-	for i := 0; i < 8; i++ {
-		u := ref.LEInt(ref.EdYToMontU(ref.Tors[i].Y))
-		add(ref.LEBytes(u, 32), "low-order")
-		up := new(big.Int).Add(u, ref.P)
-		if up.BitLen() <= 255 {
-			add(ref.LEBytes(up, 32), "low-order-noncanon")
-		}
-		t := ref.LEBytes(u, 32)
-		t[31] |= 0x80
-		add(t, "low-order-topbit")
-	}
-	for _, d := range []int64{-2, -1, 0, 1, 2} {
-		add(ref.LEBytes(new(big.Int).Add(ref.P, big.NewInt(d)), 32), "u-near-p")
-	}
-	add(ref.LEBytes(new(big.Int).Sub(gen.P2_255, gen.One), 32), "u=2^255-1")
-	add(bytes.Repeat([]byte{0xff}, 32), "u=2^256-1")
-	for i := 0; i < 6; i++ {
-		add(gen.RandBytes(rng, 32), "random")
-	}
-	t := gen.RandBytes(rng, 32)
-	t[31] |= 0x80
-	add(t, "random-topbit")
-	add(append([]byte(nil), nine...), "nine-copy")
-	return pts, cls
-}
-
 func runC11(cfg *Cfg, rec *ev.Rec) {
 	rng := cfg.rng("c11")
 	item := 0
@@ -240,8 +161,8 @@ func runC11(cfg *Cfg, rec *ev.Rec) {
 	}
 	rounds := cfg.n(48, 4000)
 	for r := 0; r < rounds; r++ {
-		scs := xScalars(rng)
-		pts, _ := xPoints(rng)
+		scs := gen.XScalars(rng)
+		pts, _ := gen.XPoints(rng)
 		for _, sc := range scs {
 			switch rng.Intn(4) {
 			case 0:
@@ -346,35 +267,9 @@ func judgeConvPub(rec *ev.Rec, key []byte, class string) bool {
 	return false
 }
 
-// specialYs: y in {0, 1, 2, p-1, p, p+1 (== 1), p+18, 2^255-1 ...} with both sign bits
-func specialKeys() ([][]byte, []string) {
-	var ks [][]byte
-	var cs []string
-	add := func(y *big.Int, c string) {
-		for s := 0; s < 2; s++ {
-			b := ref.LEBytes(y, 32)
-			b[31] |= byte(s) << 7
-			ks = append(ks, b)
-			cs = append(cs, c)
-		}
-	}
-	for i := int64(0); i < 19; i++ {
-		add(new(big.Int).Add(ref.P, big.NewInt(i)), "y>=p")
-		add(big.NewInt(i), "y<19")
-	}
-	add(new(big.Int).Sub(ref.P, gen.One), "y=p-1")
-	add(new(big.Int).Sub(ref.P, gen.Two), "y=p-2")
-	add(new(big.Int).Sub(gen.P2_255, gen.One), "y=2^255-1")
-	for _, e := range ref.SmallOrderEncodings() {
-		ks = append(ks, e)
-		cs = append(cs, "small-order")
-	}
-	return ks, cs
-}
-
 func runC12(cfg *Cfg, rec *ev.Rec) {
 	rng := cfg.rng("c12")
-	ks, cs := specialKeys()
+	ks, cs := gen.SpecialKeys()
 	for i := range ks {
 		if cfg.mine(i) {
 			judgeConvPub(rec, ks[i], cs[i])
